@@ -173,12 +173,12 @@ def gen_times(rng, n, tf=None, start_on=True, regular=None):
     return out
 
 
-def make_stream(rng, n, style="mixed", tf=None, start_on=None, regular=None):
+def make_stream(rng, n, style="mixed", tf=None, start_on=None, regular=None, t0=0):
     if start_on is None:
         start_on = rng.random() < 0.5
     ps = gen_prices(rng, n, style)
     ts = gen_times(rng, n, tf, start_on, regular)
-    return [(t,) + p for t, p in zip(ts, ps)]
+    return [(t + t0,) + p for t, p in zip(ts, ps)]
 
 
 def compositions(rng, n, pre_choices=(0, 1, 2), max_chunk=4):
